@@ -341,7 +341,9 @@ func (r *run41) start(q *req41, kind string) {
 	key := r.slotKey(q)
 	first := len(q.calls) == 0
 	k3 := [3]int{q.sess, q.slot, int(q.seq)}
-	if cons := r.consumed[k3]; cons != nil && cons != q && q.falseOf == nil && first {
+	if cons := r.consumed[k3]; cons != nil && cons != q {
+		// another request was accepted under these ids (possibly after q was first sent
+		// and refused): from now on q is a false retry of it
 		q.falseOf = cons
 	}
 	if o := q.orig(); o != nil && q.falseOf == nil {
